@@ -79,6 +79,11 @@ type Spec struct {
 	// env: Variant/ID/Key describe the key-encryption AEAD (KEK); DEK names the template
 	DEK string
 	KEK *Spec
+	// pad (key-encryption AEAD of envelope cases only): Inner encrypts, the output is framed and
+	// zero-filled to exactly PadN bytes; params = <n>~<inner scheme>~<inner route>~<inner params>,
+	// variant/id/key are the inner key's
+	PadN  int
+	Inner *Spec
 	// ks: a keyset of several keys; ID = primary key id; the key field of the line is
 	// "scheme,route,variant,id,params,keyhex,status;..." (status E enabled / D disabled)
 	Keys    []*Spec
@@ -146,6 +151,20 @@ func ParseSpec(f []string) (*Spec, error) {
 		s.AESLen, _ = strconv.Atoi(p[3])
 	case "xaes":
 		s.Salt, _ = strconv.Atoi(s.Params)
+	case "pad":
+		p := strings.SplitN(s.Params, "~", 4)
+		if len(p) != 4 {
+			return nil, fmt.Errorf("pad params")
+		}
+		n, err := strconv.Atoi(p[0])
+		if err != nil || n < 2 || n > 65535 {
+			return nil, fmt.Errorf("pad size")
+		}
+		in, err := ParseSpec([]string{p[1], p[2], f[2], f[3], p[3], f[5]})
+		if err != nil {
+			return nil, err
+		}
+		s.PadN, s.Inner = n, in
 	case "env":
 		p := strings.SplitN(s.Params, "~", 4)
 		if len(p) != 4 {
@@ -182,6 +201,9 @@ func (s *Spec) String() string {
 // Prefix is the output prefix, computed here from the documented format
 // (not through tink-go).
 func (s *Spec) Prefix() []byte {
+	if s.Scheme == "pad" {
+		return nil
+	}
 	switch s.Variant {
 	case "T":
 		return binary.BigEndian.AppendUint32([]byte{1}, s.ID)
@@ -202,6 +224,8 @@ func (s *Spec) IVLen() int {
 		return s.IVSize
 	case "xaes":
 		return s.Salt + 12
+	case "pad":
+		return s.Inner.IVLen()
 	case "env":
 		d := DEKs[s.DEK]
 		return d.KeyLen + s.KEK.IVLen() + s.DEKSpec(nil).IVLen()
@@ -374,6 +398,13 @@ func (s *Spec) TypedKey() (key.Key, error) {
 
 // Build constructs the tink.AEAD through the route the spec names.
 func (s *Spec) Build() (tink.AEAD, error) {
+	if s.Scheme == "pad" {
+		in, err := s.Inner.Build()
+		if err != nil {
+			return nil, err
+		}
+		return &padAEAD{inner: in, n: s.PadN}, nil
+	}
 	if s.Scheme == "env" {
 		kek, err := s.KEK.Build()
 		if err != nil {
@@ -466,6 +497,70 @@ func (s *Spec) Build() (tink.AEAD, error) {
 	return nil, fmt.Errorf("route %s/%s", s.Route, s.Scheme)
 }
 
+// padAEAD is a harness-side key-encryption AEAD (the "remote KMS" of an envelope case) whose
+// ciphertexts have a chosen size: be16(len(ic)) || ic || zeros up to exactly n bytes, where ic is
+// the inner AEAD's ciphertext.  Decrypt accepts exactly such strings of n bytes (any other
+// length, a length field pointing outside, a non-zero filler byte: error) and hands ic to the
+// inner AEAD.  It is an AEAD in the sense the envelope theorems need (round trip, accepts only
+// its own encryptions); the model driver has the same few lines (ocaml/c01.ml, scheme "pad").
+type padAEAD struct {
+	inner tink.AEAD
+	n     int
+}
+
+func padFrame(ic []byte, n int) ([]byte, error) {
+	if 2+len(ic) > n || len(ic) > 65535 {
+		return nil, fmt.Errorf("pad: inner ciphertext of %d bytes does not fit %d", len(ic), n)
+	}
+	out := make([]byte, n)
+	binary.BigEndian.PutUint16(out, uint16(len(ic)))
+	copy(out[2:], ic)
+	return out, nil
+}
+
+func (a *padAEAD) Encrypt(pt, ad []byte) ([]byte, error) {
+	ic, err := a.inner.Encrypt(pt, ad)
+	if err != nil {
+		return nil, err
+	}
+	return padFrame(ic, a.n)
+}
+
+func (a *padAEAD) Decrypt(c, ad []byte) ([]byte, error) {
+	if len(c) != a.n || len(c) < 2 {
+		return nil, fmt.Errorf("pad: size")
+	}
+	l := int(binary.BigEndian.Uint16(c))
+	if 2+l > len(c) {
+		return nil, fmt.Errorf("pad: length field")
+	}
+	for _, b := range c[2+l:] {
+		if b != 0 {
+			return nil, fmt.Errorf("pad: filler")
+		}
+	}
+	return a.inner.Decrypt(c[2:2+l], ad)
+}
+
+// CtLen is the ciphertext length of a plain (non-envelope) spec for a plaintext of n bytes.
+func (s *Spec) CtLen(n int) int {
+	if s.Scheme == "pad" {
+		return s.PadN
+	}
+	return len(s.Prefix()) + s.IVLen() + n + s.TagLen()
+}
+
+// PadKEK wraps the key-encryption spec k of an envelope over the data-key template dek so that
+// the encrypted DEK has exactly n bytes; PadMin is the least n that fits.
+func PadMin(k *Spec, dek string) int { return 2 + k.CtLen(2+DEKs[dek].KeyLen) }
+
+func PadEnv(k *Spec, dek string, n int) *Spec {
+	pk := &Spec{Scheme: "pad", Route: "P", Variant: k.Variant, ID: k.ID, Key: k.Key, PadN: n, Inner: k,
+		Params: fmt.Sprintf("%d~%s~%s~%s", n, k.Scheme, k.Route, k.Params)}
+	return &Spec{Scheme: "env", Route: "E", Variant: k.Variant, ID: k.ID, Key: k.Key, DEK: dek, KEK: pk,
+		Params: dek + "~pad~P~" + pk.Params}
+}
+
 // ---- stdlib-only reference implementations of the wire formats ----
 
 func stdGCM(k []byte) cipher.AEAD {
@@ -508,6 +603,14 @@ func cmacOneBlock(k, m []byte) []byte {
 func (s *Spec) Independent(iv, pt, ad []byte) (ct []byte, ok bool) {
 	if len(iv) != s.IVLen() {
 		return nil, false
+	}
+	if s.Scheme == "pad" {
+		ic, ok := s.Inner.Independent(iv, pt, ad)
+		if !ok {
+			return nil, false
+		}
+		out, err := padFrame(ic, s.PadN)
+		return out, err == nil
 	}
 	if s.Scheme == "env" {
 		d := DEKs[s.DEK]
@@ -604,6 +707,11 @@ func RandSpec(r *hx.Rng) *Spec {
 	if EnvPct > 0 && r.Chance(EnvPct) {
 		k := randPlain(r)
 		dek := hx.PickS(r, DEKNames)
+		if r.Chance(25) {
+			// a key-encryption AEAD whose ciphertext has a chosen size up to the documented maximum
+			m := PadMin(k, dek)
+			return PadEnv(k, dek, hx.PickS(r, []int{m, m + 1, m + r.Intn(200), 255, 256, 257, 4095, 4096}))
+		}
 		e := &Spec{Scheme: "env", Route: "E", Variant: k.Variant, ID: k.ID, Key: k.Key, DEK: dek, KEK: k,
 			Params: dek + "~" + k.Scheme + "~" + k.Route + "~" + k.Params}
 		return e
